@@ -82,6 +82,8 @@ def run(rep, tier):
     linetext(rep, c)
     merge(rep, c)
     linecursor(rep, c)
+    locsource(rep, c)
+    storedline(rep, c)
 
 
 # ------------------------------------------------------------------ CHECKED
@@ -938,3 +940,169 @@ def linecursor(rep, c):
     if n == 0:
         r.note("find_line_start does not compare offsets with the position")
         r.floor = 0
+
+
+# ------------------------------------------------------------------ LOCSOURCE
+
+LCL = "pest::error::LineColLocation"
+
+
+def locsource(rep, c):
+    r = rep.rule("C10.LOCSOURCE", 4,
+                 "who may compute a reported (line, column): every pair put into a LineColLocation (the `line_col` an "
+                 "error reports, and the public From<Position> / From<Span> conversions) is the result of "
+                 "Position::line_col - adjusted at most by integer constants - and never a second computation from "
+                 "lengths or counts of the text; in the Span form the first pair comes from the start of the span and "
+                 "the second from its end")
+    from .. import prov
+    P = prov.Prov(c)
+
+    def is_line_col(fn, e):
+        return kind(e) in ("Call", "MethodCall") and callee(e) == POSITION + "::line_col"
+
+    def through(fn, e):
+        k = kind(e)
+        if k == "Tup":
+            return e["elems"]
+        if k == "Field" and e["name"] in ("0", "1"):
+            return [e["base"]]
+        if k == "Binary" and e["op"] in ("+", "-"):
+            return [e["l"], e["r"]]
+        return None
+
+    def which_end(fn, recv):
+        ends = set()
+        for (f, n, note) in P.sources(fn, recv):
+            if kind(n) == "MethodCall" and n["m"] in ("start_pos", "end_pos"):
+                ends.add(n["m"][:-4])
+            elif note.startswith("destructured:") and kind(peel(n)) == "MethodCall" and peel(n)["m"] == "split":
+                ends.add({"0": "start", "1": "end"}.get(note.split(":")[1], "?"))
+            else:
+                ends.add("?")
+        return ends
+
+    n_sites = 0
+    for b in c.bodies:
+        if b.get("exp") or "::tests::" in str(b.get("path", "")) or b.get("body") is None:
+            continue
+        called = set()
+        for x in walk(b["body"]):
+            if kind(x) == "Call" and str(callee(x)).startswith(LCL + "::"):
+                called.add(id(peel(x["f"])))
+        for x in walk(b["body"]):
+            if kind(x) == "Path" and x.get("res") == "def" and str(x.get("path", "")).startswith(LCL + "::") \
+                    and str(x.get("dk", "")).startswith("Ctor") and id(x) not in called and not x.get("exp"):
+                key = "%s:%s:value" % (short(b), x["path"].split("::")[-1])
+                r.instance(key, where(x))
+                r.violation(key, where(x), "a LineColLocation constructor is used as a function value: the pairs it is "
+                            "given cannot be traced to Position::line_col")
+                n_sites += 1
+            if not (kind(x) == "Call" and str(callee(x)).startswith(LCL + "::")) or x.get("exp") or peel(x["f"]).get("exp"):
+                continue
+            variant = callee(x).split("::")[-1]
+            n_sites += 1
+            for i, a in enumerate(x["args"]):
+                key = "%s:%s:%d" % (short(b), variant, i)
+                srcs = P.sources(b, a, stop=is_line_col, through=through)
+                r.instance(key, where(a), "%d source(s)" % len(srcs))
+                foreign = [(f, n, note) for (f, n, note) in srcs
+                           if note != "stop" and not (kind(n) == "Lit" and isinstance(hirq.lit_value(n), int))]
+                if foreign or not any(note == "stop" for (_f, _n, note) in srcs):
+                    f, n, note = foreign[0] if foreign else (b, a, "no line_col call")
+                    r.violation(key, where(n), "the %s pair of LineColLocation::%s in %s is computed from `%s` and not "
+                                "(only) by Position::line_col: a second line/column computation beside the checked one "
+                                "(byte lengths and counted newlines disagree with it on multi-byte text and at CR LF)"
+                                % (("first", "second")[min(i, 1)], variant, short(b), hirq.expr_text(n)[:80]))
+                    continue
+                if variant == "Span" and len(x["args"]) == 2:
+                    ends = set()
+                    for (f, n, note) in srcs:
+                        if note == "stop":
+                            recv = n["recv"] if kind(n) == "MethodCall" else (n["args"][0] if n["args"] else None)
+                            if recv is not None:
+                                ends |= which_end(f, recv)
+                    want, other = ("start", "end") if i == 0 else ("end", "start")
+                    if other in ends and want not in ends:
+                        r.violation(key, where(a), "the %s pair of LineColLocation::Span in %s is taken from the %s of "
+                                    "the span" % (("first", "second")[i], short(b), other))
+    if n_sites < 4:
+        r.lost("construction sites of LineColLocation (found %d, the From<Position>, From<Span>, new_from_pos and "
+               "new_from_span sites were confirmed by hand)" % n_sites)
+
+
+def short(b):
+    p = str(b.get("path", ""))
+    if p.startswith("<"):
+        return p.split(" as ")[0].lstrip("<").split("::")[-1] + "::" + p.split("::")[-1] + \
+            ("<" + "".join(ch for ch in str((b.get("inputs") or ["?"])[0]).split("::")[-1] if ch.isalnum())[:12] + ">")
+    return p.split("::")[-1]
+
+
+# ------------------------------------------------------------------ STOREDLINE
+
+def storedline(rep, c):
+    r = rep.rule("C10.STOREDLINE", 3,
+                 "the line texts an error stores (ErrorInner.line / continued_line, printed verbatim between the gutter "
+                 "rows) have had their line-break characters rewritten - made visible or removed - on every path: a "
+                 "stored raw '\\n' / '\\r\\n' puts a gutter-less row between the reported line and its marker row")
+    from .. import prov
+    P = prov.Prov(c)
+
+    def replaced_chars(e):
+        chars = set()
+        e = peel(e)
+        while kind(e) == "MethodCall":
+            if e["m"] == "replace" and e["args"]:
+                for y in walk(e["args"][0]):
+                    if kind(y) == "Lit" and isinstance(y.get("v"), str):
+                        chars.update(y["v"])
+            e = peel(e["recv"])
+        return chars
+
+    def sanitiser_fn(path, depth=0):
+        f = c.fn(path)
+        if f is None or f.get("body") is None or depth > 2:
+            return False
+        vals = hirq.tail_leaves(f["body"])
+        return bool(vals) and all({"\r", "\n"} <= replaced_chars(v) or
+                                  (kind(peel(v)) == "Call" and isinstance(callee(peel(v)), str)
+                                   and sanitiser_fn(callee(peel(v)), depth + 1)) for v in vals)
+
+    def stop(fn, e):
+        k = kind(e)
+        if k == "MethodCall" and e["m"] == "replace":
+            return {"\r", "\n"} <= replaced_chars(e)
+        if k == "Call" and isinstance(callee(e), str):
+            return sanitiser_fn(callee(e))
+        if k == "Path" and e.get("res") == "def" and e.get("dk") in ("Fn", "AssocFn"):
+            return sanitiser_fn(e["path"])
+        return False
+
+    n = 0
+    for b in c.bodies:
+        if b.get("exp") or "::tests::" in str(b.get("path", "")) or b.get("body") is None or not in_error_module(b):
+            continue
+        for x in walk(b["body"]):
+            if not (kind(x) == "Struct" and str(x.get("path", "")).split("::")[-1] == "ErrorInner"
+                    and str(x.get("ty", x.get("path", ""))).startswith("pest::error::")):
+                continue
+            for f in x["fields"]:
+                if f["name"] not in ("line", "continued_line"):
+                    continue
+                n += 1
+                key = "%s:%s" % (short(b), f["name"])
+                srcs = P.sources(b, f["e"], stop=stop)
+                r.instance(key, where(f["e"]), "%d source(s)" % len(srcs))
+                for (fn, nd, note) in srcs:
+                    if note == "stop":
+                        continue
+                    if kind(nd) == "Path" and str(nd.get("path", "")).endswith("Option::None"):
+                        continue
+                    r.violation(key, where(nd), "on one path %s stores `%s` as the error's %s without rewriting its line "
+                                "breaks: Display prints a raw line break inside the block and the marker row is no longer "
+                                "under the reported line" % (short(b), hirq.expr_text(nd)[:80], f["name"]))
+                    break
+            # functional update `..base` would carry lines over unseen
+    if n < 4:
+        r.lost("ErrorInner construction sites (found %d line fields; new_from_pos and new_from_span were confirmed by "
+               "hand)" % n)
